@@ -4,9 +4,9 @@ package main
 // by client time, singleton, look-up key material.
 
 import (
-	"sort"
 	"fmt"
 	"go/types"
+	"sort"
 	"strings"
 
 	"golang.org/x/tools/go/ssa"
